@@ -21,6 +21,42 @@ pub struct Unit {
     /// defaulted items use `fallback_with` instead of `fallback`
     #[serde(default)]
     pub fallback_with: bool,
+    /// 1: repeated items are written `.some(msg).optional()`; 2: optional / repeated items carry
+    /// `.catch()` - neither changes what can be typed next
+    #[serde(default)]
+    pub decor: u8,
+    /// sub-commands wrapped in `.hide()`: they work, their names are never offered
+    #[serde(default)]
+    pub hidden_cmds: Vec<String>,
+}
+
+fn decorate(p: &mut P, decor: u8, hidden_cmds: &[String]) {
+    let leafish = |x: &P| matches!(x, P::Arg { .. } | P::ReqFlag(_) | P::Complete(..));
+    match p {
+        P::Many(x, c) if leafish(x) => {
+            if decor == 1 {
+                let inner = (**x).clone();
+                *p = P::Optional(P::Some_(inner.bx(), false).bx(), false);
+            } else if decor == 2 {
+                *c = true;
+            }
+        }
+        P::Optional(x, c) | P::Some_(x, c) if leafish(x) => {
+            if decor == 2 {
+                *c = true;
+            }
+        }
+        P::Cmd { name, inner, .. } => {
+            decorate(&mut inner.p, decor, hidden_cmds);
+            if hidden_cmds.contains(name) {
+                let me = p.clone();
+                *p = P::Hide(me.bx());
+            }
+        }
+        P::Seq(v) | P::Alt(v) | P::Choice(v) | P::Adj(v) => v.iter_mut().for_each(|x| decorate(x, decor, hidden_cmds)),
+        P::Optional(x, _) | P::Many(x, _) | P::Some_(x, _) | P::Collect(x, _) | P::Count(x) | P::Last(x) | P::Fallback(x, _, _) | P::FallbackWith(x, _) | P::Guard(x, _) | P::Parse(x, _) | P::Map(x, _) | P::Hide(x) | P::HideUsage(x) => decorate(x, decor, hidden_cmds),
+        _ => {}
+    }
 }
 
 /// wrap selected argument leaves in `.complete(echo)`
@@ -42,6 +78,9 @@ fn add_completers(p: &mut P, which: &[String]) {
 pub fn build_unit(u: &Unit) -> Opts {
     let mut o = u.level.to_opts();
     add_completers(&mut o.p, &u.completers);
+    if u.decor != 0 || !u.hidden_cmds.is_empty() {
+        decorate(&mut o.p, u.decor, &u.hidden_cmds);
+    }
     if u.fallback_with {
         // `fallback_with(|| Ok(v))` is the same parser as `fallback(v)`
         fn swap(p: &mut P) {
@@ -297,6 +336,9 @@ pub fn judge(u: &Unit, unit: &Value, p: &bpaf::OptionParser<Val>, argv: &[Tok], 
         }
         if let Tail::Cmds { cmds, .. } = &lvl.tail {
             for c in cmds {
+                if u.hidden_cmds.contains(&c.name) {
+                    continue;
+                }
                 if c.name.starts_with(typed) || c.shorts.first().map_or(false, |sc| typed == sc.to_string()) {
                     allowed.push(c.name.clone());
                 }
@@ -336,6 +378,9 @@ pub fn judge(u: &Unit, unit: &Value, p: &bpaf::OptionParser<Val>, argv: &[Tok], 
         if let Tail::Cmds { cmds, .. } = &lvl.tail {
             if s.words == 0 && !typed.starts_with('-') {
                 for c in cmds {
+                    if u.hidden_cmds.contains(&c.name) {
+                        continue;
+                    }
                     if c.name.starts_with(typed) && !rows.substs.contains(&c.name) {
                         ctx.violation(viol("every-applicable-visible-name-offered", u, unit, argv, via, format!("command {} offered", c.name), &text));
                         return;
@@ -400,14 +445,19 @@ impl Check for C14 {
                 l.named[0].hidden = true;
             }
             let completers: Vec<String> = if j % 2 == 0 { l.named.iter().filter(|n| n.kind.is_arg()).map(|n| n.names.preferred()).collect() } else { vec![] };
-            out.push(serde_json::to_value(Unit { level: l, len: tier.pick(2, 3), completers, fallback_with: j % 4 == 1 }).unwrap());
+            // every fifth definition hides one of its commands; decorations rotate
+            let hidden_cmds: Vec<String> = match &l.tail {
+                Tail::Cmds { cmds, .. } if j % 5 == 0 => vec![cmds[(j / 5) % cmds.len()].name.clone()],
+                _ => vec![],
+            };
+            out.push(serde_json::to_value(Unit { level: l, len: tier.pick(2, 3), completers, fallback_with: j % 4 == 1, decor: (j % 3) as u8, hidden_cmds }).unwrap());
         }
         // non-ASCII short and long names
         for k1 in [Kind::Switch, Kind::ArgOpt, Kind::Count] {
             for k2 in [Kind::ArgReq, Kind::ReqFlag] {
                 let a = Named { names: Names::both('ä', "änderung"), kind: k1, hidden: false, ty: Ty::Os, adjacent: false };
                 let b = Named { names: Names::short('ß'), kind: k2, hidden: false, ty: Ty::Os, adjacent: false };
-                out.push(serde_json::to_value(Unit { level: fam::leaf(vec![a, b], Tail::None), len: tier.pick(2, 3), completers: vec![], fallback_with: false }).unwrap());
+                out.push(serde_json::to_value(Unit { level: fam::leaf(vec![a, b], Tail::None), len: tier.pick(2, 3), completers: vec![], fallback_with: false, decor: 0, hidden_cmds: vec![] }).unwrap());
             }
         }
         out
@@ -474,7 +524,7 @@ impl Check for C14 {
         }
     }
     fn rule(&self) -> String {
-        "definitions = conventional levels (<=2 named items of all 10 kinds, naming styles incl. aliases; tails none / positionals / command trees of depth 3 with aliases, optional and defaulted choices); every third definition hides its first item, every fourth writes its defaults with fallback_with, a few use non-ASCII names, every second attaches an echoing completer (input+\"1\", input+\"2\") to every argument; inputs = every vector of the token tree as the already typed part x every typed last word from {empty, -, --, every prefix of every long name, every short name, --name=, --name=pre, command prefixes, plain words}; revision 0 through set_comp and (for short lines) through the --bpaf-complete-rev=0 marker; (a) the outcome is completion output for every line; (b) every candidate is the preferred spelling of a visible matching name of the active or an enclosing level, a value of the completer of the item being typed, or a metavariable placeholder - never a hidden item or a name below a command not entered; (c) on a fresh prefix every visible name of the active level that extends it and is not already given (single-use) is offered, commands when no word precedes, completer values for the item being typed; the active level / given set / pending value come from a reference scan of the typed part; lines the scan cannot classify (unknown names, clusters, separator) are only held to (a); state = (definition, line)".into()
+        "definitions = conventional levels (<=2 named items of all 10 kinds, naming styles incl. aliases; tails none / positionals / command trees of depth 3 with aliases, optional and defaulted choices); every third definition hides its first item, every fourth writes its defaults with fallback_with, every fifth wraps one of its sub-commands in hide(), repeated items are written many() / some(msg).optional() / many().catch() in rotation (optional items with and without catch()), a few use non-ASCII names, every second attaches an echoing completer (input+\"1\", input+\"2\") to every argument; inputs = every vector of the token tree as the already typed part x every typed last word from {empty, -, --, every prefix of every long name, every short name, --name=, --name=pre, command prefixes, plain words}; revision 0 through set_comp and (for short lines) through the --bpaf-complete-rev=0 marker; (a) the outcome is completion output for every line; (b) every candidate is the preferred spelling of a visible matching name of the active or an enclosing level, a value of the completer of the item being typed, or a metavariable placeholder - never a hidden item or a name below a command not entered; (c) on a fresh prefix every visible name of the active level that extends it and is not already given (single-use) is offered, commands when no word precedes, completer values for the item being typed; the active level / given set / pending value come from a reference scan of the typed part; lines the scan cannot classify (unknown names, clusters, separator) are only held to (a); state = (definition, line)".into()
     }
     fn bounds(&self, tier: Tier) -> Value {
         json!({"typed_part_length": tier.pick(2, 3), "typed_words": "18 fixed + all prefixes of all names"})
